@@ -328,7 +328,8 @@ def decoder(ctx):
   oko = len(ons) == 1 and len(offs) == 1 and ons[0].lineno < offs[0].lineno and offs[0].lineno < loop.lineno
   ctx.ob('DEC/onset-then-offset', fi, offs[0] if offs else fn, oko, 'onset frames are made active first, then frames with a predicted offset are cleared' if oko else
          'the offsets are not applied after the onsets were merged into the frames: a cell with both stays active and the note runs through its predicted offset',
-         construct='frames = frames | onsets; frames[frames & offsets] = 0')
+         construct='frames = frames | onsets; frames[frames & offsets] = 0',
+         definite=len(ons) == 1 and len(offs) == 1 and offs[0].lineno < loop.lineno and ons[0].lineno > offs[0].lineno)    # both statements located, in the wrong order
   tt = [s for s in fn.body if isinstance(s, ast.Assign) and norm_text(s.targets[0]).endswith('.total_time')]
   ok = len(tt) == 1 and nf.equal(tt[0].value, E('len(frames) * %s' % flen))
   ctx.ob('DEC/total-time', fi, tt[0] if tt else fn, ok, 'total_time = number of frames * frame length' if ok else 'total_time is not len(frames) * frame_length')
